@@ -94,6 +94,7 @@ class Interp(object):
         self.summaries_used = set()
         self.intrinsics = {}
         self.summaries = {}
+        self.summaries_contains = []
         from . import builtins
         builtins.register(self)
         self._sumcache = {}
@@ -414,6 +415,24 @@ class Interp(object):
             tmp.cells[r] = (s, v)
         return st._gather(tmp, 0, size)
 
+    def eval_fatcmp_scalar(self, st, fr, op):
+        """like eval_scalar; a fat pointer becomes (address << 64 | metadata) so that comparisons are
+        lexicographic on (address, metadata) as in Rust"""
+        blob, tid = self.eval_operand(st, fr, op)
+        if tid is not None and self.prog.is_fat_ptr(tid):
+            p = m = 0
+            for (r, s_, v) in blob:
+                if r == 0:
+                    p = v
+                elif r == 8:
+                    m = v
+            p = self.concretize(st, st.addr(p))
+            m = self.concretize(st, st.addr(m))
+            return (p << 64) | m, tid
+        if tid is None:
+            return blob[0][2], None
+        return self.scalar_of(st, blob, self.prog.size(tid)), tid
+
     def eval_scalar(self, st, fr, op):
         """-> (scalar, type id) for scalar-typed operands (thin pointers included)"""
         blob, tid = self.eval_operand(st, fr, op)
@@ -435,7 +454,7 @@ class Interp(object):
         if k == "char":
             return 32, False
         if k in ("ptr", "ref", "fnptr"):
-            return 64, False
+            return (128 if t.get("size") == 16 else 64), False
         s = t.get("size")
         if s in (1, 2, 4, 8, 16):
             # newtype around a scalar
@@ -469,12 +488,10 @@ class Interp(object):
                     return 1 if (a.alloc == b.alloc and a.off == b.off) else 0
                 if op == "Ne":
                     return 0 if (a.alloc == b.alloc and a.off == b.off) else 1
-            if isinstance(a, (FnPtrV, VT)) or isinstance(b, (FnPtrV, VT)):
-                if op == "Eq":
-                    return 1 if a == b else 0
-                if op == "Ne":
-                    return 0 if a == b else 1
-                raise Unsupported("ordering comparison of function/vtable pointers")
+            if isinstance(a, (FnPtrV, VT)):
+                a = st.addr(a)
+            if isinstance(b, (FnPtrV, VT)):
+                b = st.addr(b)
             if pa:
                 a = st.addr(a)
             if pb:
@@ -499,9 +516,9 @@ class Interp(object):
             else:
                 r = {"Lt": z3.ULT(za, zb), "Le": z3.ULE(za, zb), "Gt": z3.UGT(za, zb), "Ge": z3.UGE(za, zb)}[op]
             return bool_to_bv8(r)
-        if pa:
+        if pa or isinstance(a, (FnPtrV, VT)):
             a = st.addr(a)
-        if pb:
+        if pb or isinstance(b, (FnPtrV, VT)):
             b = st.addr(b)
         if op in ("Shl", "ShlUnchecked", "Shr", "ShrUnchecked"):
             bb, _ = self.ty_bits(tb)
@@ -728,8 +745,8 @@ class Interp(object):
                 raise Unsupported("aggregate %s" % kind)
             return
         if k == "binop":
-            a, ta = self.eval_scalar(st, fr, rv["a"])
-            b, tb = self.eval_scalar(st, fr, rv["b"])
+            a, ta = self.eval_fatcmp_scalar(st, fr, rv["a"])
+            b, tb = self.eval_fatcmp_scalar(st, fr, rv["b"])
             r = self.binop(st, rv["op"], a, ta, b, tb, rv.get("ty"))
             st.write_scalar(dest.alloc, dest.off, prog.size(dest.ty), r)
             return
@@ -1053,6 +1070,11 @@ class Interp(object):
         if r is None:
             for pat, f in self.summaries.items():
                 if pat.endswith("*") and base.startswith(pat[:-1]):
+                    r = f
+                    break
+        if r is None and fn["body"] is None:
+            for pat, f in self.summaries_contains:
+                if pat in name:
                     r = f
                     break
         self._sumcache[fid] = r
